@@ -3,3 +3,4 @@ from . import basic  # noqa: F401
 from . import rtc  # noqa: F401
 from . import faults  # noqa: F401
 from . import asynceq  # noqa: F401
+from . import concurrent  # noqa: F401
